@@ -117,6 +117,8 @@ pub enum Res {
     AckCheck { res: Result<(), E>, matched: Vec<Hd>, held: Vec<(u32, Vec<u32>)> },
     Int(i64),
     Text(String),
+    /// the API call panicked inside dust-dds (message @ location)
+    Panic(String),
 }
 
 impl Res {
@@ -134,7 +136,7 @@ impl Res {
             Res::Conds(r) => r.is_ok(),
             Res::AckCheck { res, .. } => res.is_ok(),
             Res::Handle(_) | Res::Int(_) | Res::Text(_) => true,
-            Res::Pending | Res::Skipped(_) => false,
+            Res::Pending | Res::Skipped(_) | Res::Panic(_) => false,
         }
     }
     pub fn err(&self) -> Option<E> {
@@ -181,6 +183,12 @@ pub struct Callback {
     pub entity: Hd,
     pub total: i32,
     pub change: i32,
+    /// sample-rejected: reason (0 none 1 instances 2 samples 3 samples per instance); incompatible qos: last policy id
+    pub code: i32,
+    /// sample-rejected / deadline: last instance handle; matched: last peer handle
+    pub last: Hd,
+    /// incompatible qos: (policy id, count)
+    pub policies: Vec<(i32, i32)>,
 }
 
 #[derive(Default)]
@@ -190,6 +198,8 @@ pub struct Hist {
     pub marks: Vec<(String, u64, u64)>,
     /// per world reader id: everything any R / Drain op returned, in order
     pub reader_logs: std::collections::BTreeMap<u32, Vec<(u64, u64, SampleRec)>>,
+    /// explicit source timestamps used by W ops (uid -> absolute ns)
+    pub w_ts: std::collections::BTreeMap<u32, i64>,
 }
 
 thread_local! {
